@@ -4,6 +4,7 @@ import (
 	"fmt"
 	"math/big"
 	"sort"
+	"sync"
 
 	"github.com/consensys/gnark/constraint/solver"
 	"github.com/consensys/gnark/frontend"
@@ -328,6 +329,7 @@ func init() {
 						}
 					}
 				}
+				cs = append(cs, fw.Case{ID: "race/chip-cache", Kind: "race", P: map[string]any{}})
 				// engine Plain face (no env var): the third selection branch
 				add("engine", "plain", "gl", 0, "")
 				for _, n := range widthsFor("plain", "engine") {
@@ -337,6 +339,24 @@ func init() {
 			},
 			Exec: func(ctx *fw.Ctx, c fw.Case) fw.Outcome {
 				var o fw.Outcome
+				if c.Kind == "race" {
+					reports, work, err := runRaceBinary(2)
+					if err != nil {
+						return fw.Inconcl(err.Error())
+					}
+					if reports > 0 {
+						return fw.Violate("data_race_in_chip_cache", fmt.Sprintf("%d race detector reports", reports))
+					}
+					if v, ok := work["crosstalk"].(float64); ok && v > 0 {
+						return fw.Violate("chip_cache_crosstalk", fmt.Sprintf("%d runs observed another face's mechanism or verdict", int(v)))
+					}
+					if v, ok := work["chip_runs"].(float64); ok {
+						o.Add("concurrent_chip_runs_under_race_detector", int(v))
+						o.Events += int(v)
+					}
+					o.Sample = map[string]any{"race_build": work, "reports": reports}
+					return o
+				}
 				exec, mech, gad, n := c.Str("exec"), c.Str("mech"), c.Str("gadget"), c.Int("n")
 				isGL := gad == "gl"
 				fn := gadget.Fn(c06GLGadget)
@@ -455,4 +475,55 @@ func trunc(s string, n int) string {
 		return s[:n]
 	}
 	return s
+}
+
+// c06RaceWorkload: 16 goroutines concurrently create chips on distinct APIs of different
+// faces (the repository keeps a global chip map behind a mutex) and run range-check
+// gadgets; every goroutine must observe the mechanism and the verdicts of its own face.
+func c06RaceWorkload2() (int, int) { return c06RaceWorkloadImpl() }
+
+func c06RaceWorkloadImpl() (int, int) {
+	var wg sync.WaitGroup
+	var mu sync.Mutex
+	runs := 0
+	cross := 0
+	for g := 0; g < 16; g++ {
+		wg.Add(1)
+		go func(g int) {
+			defer wg.Done()
+			face := []engine.Face{engine.Native, engine.Plain, engine.Commit}[g%3]
+			for k := 0; k < 40; k++ {
+				var typ gl.RangeCheckerType
+				v := bu(P - 1)
+				if k%2 == 1 {
+					v = bu(P)
+				}
+				res := harnRunOpt(engine.Options{Face: face}, func(api frontend.API) error {
+					chip := gl.New(api)
+					typ = chip.VerifRangeCheckerType()
+					if face != engine.Commit {
+						chip.RangeCheck(gl.NewVariable(v))
+					} else {
+						chip.Mul(gl.NewVariable(3), gl.NewVariable(5))
+					}
+					return nil
+				})
+				want := map[engine.Face]gl.RangeCheckerType{engine.Native: gl.NATIVE_RANGE_CHECKER, engine.Plain: gl.BIT_DECOMP_RANGE_CHECKER, engine.Commit: gl.COMMIT_RANGE_CHECKER}[face]
+				bad := typ != want
+				if face != engine.Commit {
+					if (k%2 == 0) != (res.Verdict == engine.Accept) {
+						bad = true
+					}
+				}
+				mu.Lock()
+				runs++
+				if bad {
+					cross++
+				}
+				mu.Unlock()
+			}
+		}(g)
+	}
+	wg.Wait()
+	return runs, cross
 }
